@@ -60,3 +60,79 @@ rebuild!(slim_ssse3_1, 1);
 rebuild!(slim_ssse3_2, 2);
 rebuild!(slim_ssse3_3, 3);
 rebuild!(slim_ssse3_4, 4);
+
+/// 256-bit tables of a teddy `Searcher`: (variant, buckets, (lo, hi) masks)
+/// with variant 1 = slim AVX2 (8 buckets), 2 = fat AVX2 (16 buckets);
+/// `None` for the 128-bit implementation.
+pub(crate) fn describe256(
+    s: &Searcher,
+) -> Option<(u8, Vec<Vec<u32>>, Vec<([u8; 32], [u8; 32])>)> {
+    let dbg = alloc::format!("{:?}", s.imp);
+    let name: alloc::string::String =
+        dbg.chars().take_while(|c| *c != ' ' && *c != '{').collect();
+    let raw = Arc::as_ptr(&s.imp) as *const u8;
+    unsafe {
+        if name == "SlimAVX2" {
+            // minimum_len is the 128-bit half's: 16 + BYTES - 1
+            let bytes = s.minimum_len.wrapping_sub(15);
+            let (b, m) = match bytes {
+                1 => generic::verif::slim256_to_raw(&(*(raw as *const SlimAVX2<1>)).slim256),
+                2 => generic::verif::slim256_to_raw(&(*(raw as *const SlimAVX2<2>)).slim256),
+                3 => generic::verif::slim256_to_raw(&(*(raw as *const SlimAVX2<3>)).slim256),
+                4 => generic::verif::slim256_to_raw(&(*(raw as *const SlimAVX2<4>)).slim256),
+                _ => return None,
+            };
+            Some((1, b, m))
+        } else if name == "FatAVX2" {
+            let bytes = s.minimum_len.wrapping_sub(15);
+            let (b, m) = match bytes {
+                1 => generic::verif::fat256_to_raw(&(*(raw as *const FatAVX2<1>)).fat256),
+                2 => generic::verif::fat256_to_raw(&(*(raw as *const FatAVX2<2>)).fat256),
+                3 => generic::verif::fat256_to_raw(&(*(raw as *const FatAVX2<3>)).fat256),
+                4 => generic::verif::fat256_to_raw(&(*(raw as *const FatAVX2<4>)).fat256),
+                _ => return None,
+            };
+            Some((2, b, m))
+        } else {
+            None
+        }
+    }
+}
+
+macro_rules! rebuild_avx2 {
+    ($slim:ident, $fat:ident, $len:expr) => {
+        pub(crate) fn $slim(
+            patterns: Arc<Patterns>,
+            buckets: &'static [&'static [u32]; 8],
+            masks: &'static [([u8; 16], [u8; 16])],
+            buckets256: &'static [&'static [u32]; 16],
+            masks256: &'static [([u8; 32], [u8; 32])],
+        ) -> Searcher {
+            let slim128 = unsafe {
+                generic::verif::slim128_from_parts::<$len>(Arc::clone(&patterns), buckets, masks)
+            };
+            let slim256 = unsafe {
+                generic::verif::slim256_from_parts::<$len>(patterns, buckets256, masks256)
+            };
+            let minimum_len = slim128.minimum_len();
+            let imp = Arc::new(SlimAVX2::<$len> { slim128, slim256 });
+            Searcher { imp, memory_usage: 0, minimum_len }
+        }
+        pub(crate) fn $fat(
+            patterns: Arc<Patterns>,
+            buckets256: &'static [&'static [u32]; 16],
+            masks256: &'static [([u8; 32], [u8; 32])],
+        ) -> Searcher {
+            let fat256 = unsafe {
+                generic::verif::fat256_from_parts::<$len>(patterns, buckets256, masks256)
+            };
+            let minimum_len = fat256.minimum_len();
+            let imp = Arc::new(FatAVX2::<$len> { fat256 });
+            Searcher { imp, memory_usage: 0, minimum_len }
+        }
+    };
+}
+rebuild_avx2!(slim_avx2_1, fat_avx2_1, 1);
+rebuild_avx2!(slim_avx2_2, fat_avx2_2, 2);
+rebuild_avx2!(slim_avx2_3, fat_avx2_3, 3);
+rebuild_avx2!(slim_avx2_4, fat_avx2_4, 4);
